@@ -196,3 +196,9 @@ MUTANTS += [
     dict(property='C01', name='reactant matrix: death accumulates instead of marking', file=BASEF, old="                    self._lambdaMat[origin_index, event_index] = 1\n                elif transition.transition_type==TransitionType.T:", new="                    self._lambdaMat[origin_index, event_index] += 1\n                elif transition.transition_type==TransitionType.T:"),
     dict(property='C01', name='reactant matrix: transfer destination not marked', file=BASEF, old="                    self._lambdaMat[origin_index, event_index] = 1\n                    self._lambdaMat[destination_index, event_index] = 1", new="                    self._lambdaMat[origin_index, event_index] = 1"),
 ]
+MUTANTS += [
+    dict(property='C06', name='BaseLoss.__init__: state_name=None builds weights for n columns', file=BLF, old="self._weight = self._setWeight_or_spread(n, p, state_weight,is_weights= True)", new="self._weight = self._setWeight_or_spread(n, n, state_weight,is_weights= True)"),
+]
+MUTANTS += [
+    dict(property='C06', name='_unrollParam (all parameters) skips the last value', file=BLF, old="                for i in range(len(theta)):\n                    self._theta[i] = theta[i]", new="                for i in range(len(theta) - 1):\n                    self._theta[i] = theta[i]"),
+]
